@@ -2,7 +2,7 @@
 META = {
     "level": "exploration",
     "technique": "history + executable model: seeded add/renew/cancel/write/allocate histories on the real StorageServer and share-file classes compared with a lease-table model; raw container bytes scanned for every secret any client presented",
-    "text": "Drives the real StorageServer.add_lease / renew_lease / allocate_buckets / slot_testv_and_readv_and_writev (and FoolscapStorageServer.remote_add_lease/remote_renew_lease, ShareFile/MutableShareFile.renew_lease/cancel_lease) under a forward-moving virtual clock on one immutable and one mutable storage index with 1..3 shares each, v1 and v2 containers mixed, up to 12 leases per share (mutable extra-lease area), data writes and container growth in between. After every operation each share's leases (through get_leases() and through an independent parser of the raw file) are compared with a lease table (owner, renew-secret match, cancel-secret match, expiry); renewing with a secret unknown to the bucket must raise and leave every file byte-identical; expiry never decreases (shorter renewal duration, explicit earlier time); the raw bytes of every v2 container are scanned for every renew/cancel secret ever presented.",
+    "text": "Drives the real StorageServer.add_lease / renew_lease / allocate_buckets / slot_testv_and_readv_and_writev (and FoolscapStorageServer.remote_add_lease/remote_renew_lease, ShareFile/MutableShareFile.renew_lease/cancel_lease) under a forward-moving virtual clock on one immutable and one mutable storage index with 1..3 shares each, v1 and v2 containers mixed, up to 12 leases per share (mutable extra-lease area), data writes and container growth in between; plus a directed boundary family of sparse immutable shares whose allocated size sits around 2**32 (2**32-2, -1, +0, +7, ..., where the 4-byte share-data-length header field saturates; v1 and v2 containers; files parsed by header+tail only and unlinked afterwards) run through add/renew/unknown-renew/second-allocate/backdating steps with the same lease-table oracle and a head/tail data-intact check. After every operation each share's leases (through get_leases() and through an independent parser of the raw file) are compared with a lease table (owner, renew-secret match, cancel-secret match, expiry); renewing with a secret unknown to the bucket must raise and leave every file byte-identical; expiry never decreases (shorter renewal duration, explicit earlier time); the raw bytes of every v2 container are scanned for every renew/cancel secret ever presented.",
     "note": "Trusts the lease-table model and the independent parser; renew_lease with a secret known to only some shares of the bucket is generated but not judged (the statement leaves it open); cancel_lease (the share-file call the lease crawler makes) is a judged history step for every OTHER lease (they must stay visible, renewable, never duplicated, incl. leases stored behind the blanked slot of a mutable container); only what happens to the cancelled lease itself is left as an observation.",
 }
 LEVEL = "exploration"
@@ -29,7 +29,10 @@ def run(ck):
         rng = ck.rng("case", ci)
         case = S.Case(rng)
         try:
-            _one_case(ck, rng, case, ci)
+            if rng.random() < (.15 if ck.tier == "quick" else .05):
+                _big_share_family(ck, rng, case, ci)
+            else:
+                _one_case(ck, rng, case, ci)
         except Exception as e:
             import traceback
             tb = traceback.extract_tb(e.__traceback__)[-1]
@@ -39,14 +42,15 @@ def run(ck):
         finally:
             case.close()
     for m in ("lease-table", "raw-lease-records", "unknown-renew-rejected", "no-cleartext-in-v2", "no-backdating",
-              "leases-survive-cancel"):
+              "leases-survive-cancel", "big-share-data-intact"):
         ck.require_monitor(m)
     for r in ("renew-known-via-add_lease", "add-fresh", "renew-unknown", "backdate-attempt-shorter-duration",
               "backdate-attempt-explicit-time", "mutable-leases>4", "write-with-leases>4", "growth-with-extra-leases",
               "immutable-v1", "immutable-v2", "mutable-v1", "mutable-v2", "v1-cleartext-seen",
               "allocate-renews-existing", "renew_lease-known", "foolscap-wrapper", "cancel",
               "cancel-secret-as-renew-secret", "mutable-cancel-leaves-hole-below-leases",
-              "renew-or-add-after-hole"):
+              "renew-or-add-after-hole", "big-share:2**32-2", "big-share:2**32-1", "big-share:2**32+0",
+              "big-share:2**32+7", "big-share-v1", "big-share-v2"):
         ck.require_reach(r)
     ck.exhaustive = False
 
@@ -430,6 +434,161 @@ def _one_case(ck, rng, case, ci):
 
 class _Stop(Exception):
     pass
+
+
+BIG_SIZES = [2 ** 32 - 2, 2 ** 32 - 1, 2 ** 32, 2 ** 32 + 7, 2 ** 32 + 1, 2 ** 32 + 72, 2 ** 33]
+
+
+def _big_share_family(ck, rng, case, ci):
+    """Directed boundary family: immutable shares whose allocated size sits around 2**32, where the 4-byte
+    share-data-length header field saturates.  The files are sparse (a few hundred bytes are really written), the
+    lease oracle is the usual lease table; files are never read whole (S.ImmutableTail) and are unlinked at the end."""
+    from allmydata.storage.immutable import ShareFile
+    from allmydata.storage.lease import LeaseInfo
+    ss = case.ss
+    sizes = BIG_SIZES[:4] + rng.sample(BIG_SIZES[4:], 1)
+    rng.shuffle(sizes)
+    for size in sizes:
+        si = S.rand_si(rng)
+        sh = rng.randrange(4)
+        path = case.final_path(si, sh)
+        v = rng.choice([1, 2, 2])
+        tag = "2**32%+d" % (size - 2 ** 32)
+        ck.hit("big-share:" + tag)
+        ck.hit("big-share-v%d" % v)
+        history = [("big-share", tag, "v%d" % v)]
+        presented = []
+
+        def secret():
+            x = S.rand_bytes(rng, 32)
+            presented.append(x)
+            return x
+
+        def viol(key, what, **w):
+            w["history"] = history[-10:]
+            w["size"] = size
+            ck.violation(key, "immutable share of allocated size %s (v%d container): %s" % (tag, v, what), w)
+            raise _Stop()
+
+        head, tail = S.rand_bytes(rng, 200), S.rand_bytes(rng, 300)
+        R, C = secret(), secret()
+        leases = []
+        try:
+            try:
+                if v == 2:
+                    already, writers = ss.allocate_buckets(si, R, C, {sh}, size)
+                    if set(writers) != {sh}:
+                        ck.observe("big-share-not-granted")
+                        continue
+                    writers[sh].write(0, head)
+                    writers[sh].write(size - len(tail), tail)
+                    writers[sh].close()
+                    leases.append({"owner": 0, "renew": R, "cancel": C, "expiry": int(env.reactor.seconds() + RENEW)})
+                else:
+                    sf = ShareFile(path, max_size=size, create=True, schema=S.schema_v1("immutable"))
+                    sf.write_share_data(0, head)
+                    sf.write_share_data(size - len(tail), tail)
+                    sf.add_lease(LeaseInfo(1, R, C, int(env.reactor.seconds() + RENEW), case.nodeid))
+                    leases.append({"owner": 1, "renew": R, "cancel": C, "expiry": int(env.reactor.seconds() + RENEW)})
+
+                def check(after):
+                    real = list(ShareFile(path).get_leases())
+                    t = S.ImmutableTail(path)
+                    ck.mon("lease-table")
+                    if len(real) != len(leases):
+                        viol("duplicate-lease-appended" if len(real) > len(leases) else "lease-lost",
+                             "%d leases visible, model has %d (after %s)" % (len(real), len(leases), after))
+                    for w in leases:
+                        m = [l for l in real if l.is_renew_secret(w["renew"])]
+                        if len(m) != 1:
+                            viol("lease-secret-match", "%d leases accept renew secret %s (after %s)"
+                                 % (len(m), w["renew"][:4].hex(), after))
+                        got = int(m[0].get_expiration_time())
+                        if got != w["expiry"]:
+                            viol("lease-expiry-shortened" if got < w["expiry"] else "lease-expiry-wrong",
+                                 "lease %s expires %d, model %d (after %s)" % (w["renew"][:4].hex(), got, w["expiry"], after))
+                        if m[0].owner_num != w["owner"] or not m[0].is_cancel_secret(w["cancel"]):
+                            viol("lease-record-changed", "owner/cancel secret of lease %s changed (after %s)"
+                                 % (w["renew"][:4].hex(), after))
+                    ck.mon("raw-lease-records")
+                    if t.filesize != 12 + size + 72 * len(leases) or \
+                            sorted(l["expiry"] for l in t.leases) != sorted(w["expiry"] for w in leases):
+                        viol("raw-lease-records-differ", "file is %d bytes with lease expiries %r at its end; expected "
+                             "%d bytes and %r (after %s)" % (t.filesize, sorted(l["expiry"] for l in t.leases),
+                                                             12 + size + 72 * len(leases),
+                                                             sorted(w["expiry"] for w in leases), after))
+                    if v == 2:
+                        ck.mon("no-cleartext-in-v2")
+                        if any(x in t.tail for x in presented):
+                            viol("v2-stores-cleartext-secret", "a client's lease secret is stored in cleartext (after %s)" % after)
+                    # leases survive / do not damage the share data
+                    ck.mon("big-share-data-intact")
+                    sf = ShareFile(path)
+                    if sf.read_share_data(0, len(head)) != head or \
+                            sf.read_share_data(size - len(tail), len(tail) + 100) != tail:
+                        viol("lease-op-damaged-share-data", "head/tail of the share data read back differently, or lease "
+                             "bytes are served as data (after %s)" % after)
+
+                check("upload")
+                steps = ["add-known", "renew-known", "add-fresh", "renew-unknown", "allocate-known", "file-renew-back",
+                         "add-known", "renew-known"]
+                rng.shuffle(steps)
+                for step in steps:
+                    env.reactor.advance(rng.choice([1, 3600, 86400, 5 * 86400]))
+                    now = env.reactor.seconds()
+                    history.append(step)
+                    if step == "add-known":
+                        k = rng.choice(leases)
+                        ss.add_lease(si, k["renew"], rng.choice([k["cancel"], secret()]))
+                        k["expiry"] = max(k["expiry"], int(now + RENEW))
+                        ck.hit("renew-known-via-add_lease")
+                    elif step == "renew-known":
+                        k = rng.choice(leases)
+                        try:
+                            ss.renew_lease(si, k["renew"])
+                        except IndexError as e:
+                            viol("known-renew-raises", "renew_lease with the secret of an existing lease raised IndexError: %s" % e)
+                        k["expiry"] = max(k["expiry"], int(now + RENEW))
+                        ck.hit("renew_lease-known")
+                    elif step == "add-fresh":
+                        r2, c2 = secret(), secret()
+                        ss.add_lease(si, r2, c2)
+                        leases.append({"owner": 1, "renew": r2, "cancel": c2, "expiry": int(now + RENEW)})
+                        ck.hit("add-fresh")
+                    elif step == "renew-unknown":
+                        before = S.ImmutableTail(path)
+                        ck.mon("unknown-renew-rejected")
+                        ck.hit("renew-unknown")
+                        try:
+                            ss.renew_lease(si, secret())
+                        except Exception:
+                            pass
+                        else:
+                            viol("unknown-renew-no-error", "renew_lease with an unknown secret returned normally")
+                        after = S.ImmutableTail(path)
+                        if (after.filesize, after.head, after.tail) != (before.filesize, before.head, before.tail):
+                            viol("unknown-renew-changed-files", "renewal with an unknown secret changed the share file")
+                    elif step == "allocate-known":
+                        k = rng.choice(leases)
+                        already, writers = ss.allocate_buckets(si, k["renew"], k["cancel"], {sh}, size)
+                        if writers or sh not in already:
+                            viol("alreadygot-mismatch", "second allocate_buckets: alreadygot=%r writers=%r" % (sorted(already), sorted(writers)))
+                        k["expiry"] = max(k["expiry"], int(now + RENEW))
+                        ck.hit("allocate-renews-existing")
+                    else:
+                        k = rng.choice(leases)
+                        ck.mon("no-backdating")
+                        ck.hit("backdate-attempt-explicit-time")
+                        ShareFile(path).renew_lease(k["renew"], k["expiry"] - 86400)
+                    check(step)
+            except _Stop:
+                pass
+        finally:
+            for p in (path, case.incoming_path(si, sh)):
+                if os.path.exists(p):
+                    os.unlink(p)
+        ck.case("big-share", key=(tag, v, tuple(history)), nontrivial=True,
+                sample={"size": tag, "container": "v%d" % v, "steps": history[1:]})
 
 
 # MUST_CATCH -- planted breaks run against scratch copies (VF_REPO), quick tier, seed 0:
